@@ -79,6 +79,10 @@ fn install_hook(out_dir: &str) {
             }
             println!("VIOLATION-CONTEXT\tfamily={}\tcurrent-ops={}", p.family, ctx);
             println!("VIOLATION-FAMILIES\t{}", context::fams_text(context::current_fams()));
+            // families of the operation the violating thread itself is executing
+            let t = triomphe_verif_rt::sim::tid();
+            let own = ops[if t == triomphe_verif_rt::sim::NONE { 0 } else { t.min(3) }].map(|o| context::fam_mask(o.code.families())).unwrap_or(0);
+            println!("VIOLATION-OPFAMS\t{}", context::fams_text(own));
             if !g.out_dir.is_empty() {
                 let path = format!("{}/viol-{}-{}.replay", g.out_dir, p.profile, p.seed);
                 let mut text = p.to_text();
